@@ -54,6 +54,7 @@ type hist struct {
 	// finding - and the re-save of such a graph cannot be compared byte for byte.)
 	fileBlobs bool
 	autosave  string // every-edit | random | never
+	noReplay  bool   // the history is not one runHistory can replay
 }
 
 func (h *hist) logf(format string, a ...any) {
